@@ -30,11 +30,14 @@ SPEC = dict(
                 "the direct-database and the cluster-apply mode and for all requests, that every permission check (single or batched, "
                 "cache hit or miss) returns policy(current tables) — by the invariant 'every cache entry of a token that still "
                 "authenticates equals the policy/loader on the current tables' — from the one finite fact `insufficient = []` about the "
-                "invalidation table that factgen regenerates from the source on every run. For the current tree that fact is FALSE "
-                "(direct DeleteOrganization, UpdateToken in both modes), so what is unconditionally proved is C20_current (statement "
-                "computed from the regenerated table: the full theorem once the table is sufficient, else a stale-decision witness for "
-                "each insufficient mutation), C20_partial (full statement for every history avoiding the insufficient mutations) and "
-                "the guarded C20_witness_* theorems. exec_effect proves for all tables/arguments that each op's success path stays "
+                "facts that factgen regenerates from the source on every run: the per-method invalidation table (incl. the log-replay and "
+                "the name-collision/re-align paths of ApplyCreateOrganization) AND the per-cache structure of the two invalidators "
+                "(InvalidateTokenCache drops the data entry and scans the permission cache unconditionally; InvalidateAllCache replaces "
+                "both maps). The two caches are modelled as independently bounded (capacity eviction with the victim as an oracle "
+                "input, for every cache size) and independently swept (cleanupExpiredCache). C20_current is the statement computed from "
+                "the regenerated facts: the unconditional full theorem when they are sufficient (the case for the current tree, after "
+                "fixes d428cab/62ca961), else a stale-decision witness for each insufficient mutation; C20_partial is the full statement "
+                "for every history avoiding insufficient mutations; guarded C20_witness_* keep the round-1 counterexamples. exec_effect proves for all tables/arguments that each op's success path stays "
                 "within the class (neutral / token-local / token-gone / global) that decides which invalidation it needs. The model "
                 "(incl. matchPattern, validation, cascades, TTL boundaries, hit/miss) is diffed against the real AuthManager + "
                 "RBACManager (+ real raft.ClusterFSM and Apply* callbacks in cluster mode) on SQLite under a virtual clock; the "
@@ -54,7 +57,9 @@ SPEC = dict(
         "SQLite semantics (ON DELETE CASCADE with foreign_keys=ON, UNIQUE, AUTOINCREMENT never reusing ids) are modelled (cascade = keep children whose parent remains) and validated by the correspondence, not proved",
         "row ids are inputs of the model's create ops (taken from the implementation: AUTOINCREMENT / Raft log index); the theorems only need them fresh (token ids: never used before), which the model checks (`bad-id`)",
         "VerifyToken returns the token's current row (AuthManager's own token cache is invalidated by every token mutation — checked syntactically by factgen; its races are property C21)",
-        "sync.RWMutex makes each check / mutation one atomic step; cache eviction at maxCacheSize and the background TTL sweep only remove entries (CInv_sublist: harmless)",
+        "sync.RWMutex makes each check / mutation one atomic step",
+        "capacity eviction removes an ARBITRARY entry (Go map iteration order): the overlay routes that choice through a hook (SPEC.rewrite of the two eviction loops; any choice is a legal behaviour of the original) so the harness can hand the victim to the model; with a small MaxCacheSize the harness issues single-token batches only (CheckPermissionsBatch visits its per-token groups in map order)",
+        "direct→cluster switch (upgrade seed): the FSM's log index starts above every local id, so every seeded organization takes the re-align path; tokens created before the switch are unknown to the FSM (modelled: fsmTokFrom); re-using the NAME of such a token in cluster mode diverges FSM and SQLite and is not modelled (the harness avoids it)",
         "cluster-apply mode = this node is the Raft leader and applies each proposal to the real ClusterFSM synchronously (follower replication lag is outside the property: 'after the change has returned')",
         "the classification classOf (which decisions a mutation can change) is hand-written but PROVED adequate (exec_effect); the op list is tied to the source by factgen's completeness check (unmodelled mutating method = SHAPE-MISMATCH)",
     ],
